@@ -156,7 +156,7 @@ m('ok-over-read', ('bip39.go', '''	entropy := make([]byte, length+length/3)
 		return "", err
 	}
 ''', '''	var block [40]byte
-	if _, err := io.ReadFull(cryptoRander, block[:]); err != nil {
+	if _, err := io.ReadAtLeast(cryptoRander, block[:], length+length/3); err != nil {
 		return "", err
 	}
 	entropy := block[:length+length/3]
@@ -167,11 +167,11 @@ m('ok-strict-on-error-alongside', ('bip39.go', '''	if _, err := io.ReadFull(cryp
 ''', '''	for got := 0; got < len(entropy); {
 		n, err := cryptoRander.Read(entropy[got:])
 		got += n
-		if err != nil {
+		if err != nil && err != io.EOF {
 			return "", err
 		}
-		if n == 0 {
-			continue
+		if err == io.EOF && got < len(entropy) {
+			return "", io.ErrUnexpectedEOF
 		}
 	}
 '''))
